@@ -137,6 +137,9 @@ class Check:
                 self.known_hits.append((key, desc))
             self.record(name, 'known', detail=text)
             return
+        if any(k == key for _, k, _, _ in self.violations):
+            self.record(name, 'violated', detail=text + ' [same finding as above]')
+            return
         os.makedirs(self.replay_dir, exist_ok=True)
         safe = re.sub(r'[^A-Za-z0-9_.-]', '_', key)[:80]
         path = os.path.join(self.replay_dir, safe + '.sh')
